@@ -365,6 +365,16 @@ int main(int argc, char** argv) {
                     if (eq && hash_value(sp[i]) != hash_value(sp[j])) R.violation("tables|hash|qr_sig", "equal signatures hash differently", "hash=1"); }
                 auto rp = rr_pool(); for (auto& x : rp) for (auto& y : rp) { n++; if ((x == y) != (canon(x) == canon(y))) R.violation("tables|equality|rr", canon(x) + " vs " + canon(y), "hash=1"); if (x == y && hash_value(x) != hash_value(y)) R.violation("tables|hash|rr", "equal rr hash differently", "hash=1"); }
                 auto mp = mmd_pool(); for (auto& x : mp) for (auto& y : mp) { n++; if ((x == y) != (canon(x) == canon(y))) R.violation("tables|equality|mmd", canon(x) + " vs " + canon(y), "hash=1"); if (x == y && hash_value(x) != hash_value(y)) R.violation("tables|hash|mmd", "equal mmd hash differently", "hash=1"); }
+                // boundary grids for the small keyed types: values that differ only above bit 8 / 16 of a member, swapped members, list order, embedded NUL bytes
+                { static const unsigned G[] = {0, 1, 2, 3, 40, 41, 57, 255, 256, 257, 511, 512, 768, 1232, 1488, 4096, 4352, 65535}; std::vector<ClassType> cp;
+                  for (unsigned t : G) for (unsigned c : G) { ClassType x; x.type = t; x.class_ = c; cp.push_back(x); }
+                  for (auto& x : cp) for (auto& y : cp) { n++; if ((x == y) != (canon(x) == canon(y))) R.violation("tables|equality|classtype", canon(x) + " vs " + canon(y) + ": operator== says " + std::to_string(x == y), "hash=1"); if (x == y && hash_value(x) != hash_value(y)) R.violation("tables|hash|classtype", "equal class/types hash differently", "hash=1"); } }
+                { static const uint64_t G[] = {0, 1, 255, 256, 65535, 65536, 0xffffffffULL}; std::vector<Question> qp; for (uint64_t a : G) for (uint64_t b2 : G) { Question q; q.name_index = (index_t)a; q.classtype_index = (index_t)b2; qp.push_back(q); }
+                  for (auto& x : qp) for (auto& y : qp) { n++; if ((x == y) != (canon(x) == canon(y))) R.violation("tables|equality|question", canon(x) + " vs " + canon(y), "hash=1"); if (x == y && hash_value(x) != hash_value(y)) R.violation("tables|hash|question", "equal questions hash differently", "hash=1"); } }
+                { std::vector<std::vector<index_t>> ls = {{}, {0}, {1}, {0, 1}, {1, 0}, {0, 0}, {256}, {1, 256}, {256, 1}, {65536}, {0, 1, 2}, {2, 1, 0}, {0, 2, 1}, {1, 1}, {1}, {0xffffffffu}}; std::vector<IndexListItem> ip; for (auto& l : ls) { IndexListItem it; it.list = l; ip.push_back(it); }
+                  for (auto& x : ip) for (auto& y : ip) { n++; if ((x == y) != (x.list == y.list)) R.violation("tables|equality|index-list", canon(x.list) + " vs " + canon(y.list), "hash=1"); if (x == y && hash_value(x) != hash_value(y)) R.violation("tables|hash|index-list", "equal lists hash differently", "hash=1"); } }
+                { std::vector<std::string> ss = {std::string(), std::string("\0", 1), "a", std::string("a\0", 2), std::string("\0a", 2), std::string("a\0b", 3), std::string("a\0c", 3), "ab", "ba", std::string(300, 'x'), std::string(300, 'x') + "y", std::string("\xff\xff", 2)}; std::vector<StringItem> sp2; for (auto& v : ss) { StringItem it; it.data = v; sp2.push_back(it); }
+                  for (auto& x : sp2) for (auto& y : sp2) { n++; if ((x == y) != (x.data == y.data)) R.violation("tables|equality|string", ref::hex(x.data).substr(0, 20) + " vs " + ref::hex(y.data).substr(0, 20), "hash=1"); if (x == y && hash_value(x) != hash_value(y)) R.violation("tables|hash|string", "equal strings hash differently", "hash=1"); } }
                 R.count("traces", n); R.count("nontrivial", n); R.outcome("hash-equality");
         };
         if (!a.replay.empty()) { auto kv = kvparse(slurp(a.replay)); std::string s = slurp(a.replay); Pool rp(1, 300);
